@@ -7,7 +7,7 @@ package peers
 // Memo cells: each may hold only a value that satisfies the defining property of what it caches, stated over
 // data that is fixed once the set is built (the key index and the peer slice). NewPeerSet leaves them empty.
 //@ ghost func (ps *PeerSet) smMemo() bool { return ps.superMajority == nil || (3*(*ps.superMajority) > 2*len(ps.ByPubKey) && 3*(*ps.superMajority-1) <= 2*len(ps.ByPubKey)) }
-//@ ghost func (ps *PeerSet) tcMemo() bool { return ps.trustCount == nil || ((forall s int :: s > *ps.trustCount ==> 3*s > len(ps.ByPubKey)) && (1 > *ps.trustCount ==> len(ps.ByPubKey) <= 1)) }
+//@ ghost func (ps *PeerSet) tcMemo() bool { return ps.trustCount == nil || (*ps.trustCount >= 0 && (forall s int :: s > *ps.trustCount ==> 3*s > len(ps.ByPubKey)) && (1 > *ps.trustCount ==> len(ps.ByPubKey) <= 1)) }
 //@ ghost func (ps *PeerSet) hashMemo() bool { return len(ps.hash) == 0 || __seqeq(ps.hash, PSHashOf(ps.Peers)) }
 //@ ghost func (p *Peer) idMemo() bool { return p.id == 0 || p.id == keys.KeyID(common.KeyBytesOf(p.PubKeyHex)) }
 //@ memo PeerSet.superMajority smMemo
@@ -38,6 +38,7 @@ package peers
 //@   modifies nothing
 //@   ensures[strict-third] forall s int :: s > ret0 ==> 3*s > len(peerSet.ByPubKey)
 //@   ensures[single]       1 > ret0 ==> len(peerSet.ByPubKey) <= 1
+//@   ensures[nonneg]       ret0 >= 0
 //@   aux[closed]           old(peerSet.trustCount) == nil ==> ret0 == __ite(len(peerSet.Peers) > 1, (len(peerSet.ByPubKey)+2)/3, 0)
 
 //@ lemma sm_le(n int, sm int)
